@@ -1,4 +1,5 @@
 import PilotaModel.Thrift.Unsafe
+import PilotaModel.Thrift.Skip
 import PilotaModel.Thrift.Async
 import PilotaModel.Thrift.Spec
 import PilotaModel.Thrift.Msg
@@ -48,10 +49,11 @@ def uw (items : List Sexp) : Option String := do
     | o => pure o.cls
 
 inductive UStep where
-  | read (t : TType) | get (ptr : Bool) (len : Nat) | msg
+  | read (t : TType) | skip (t : TType) | get (ptr : Bool) (len : Nat) | msg
 
 def ustepOf : Sexp → Option UStep
   | .list [.atom "read", t] => do let t ← t.asAtom >>= TType.ofName; pure (.read t)
+  | .list [.atom "skip", t] => do let t ← t.asAtom >>= TType.ofName; pure (.skip t)
   | .list [.atom "get", p, n] => do let p ← p.asNat; let n ← n.asNat; pure (.get (p != 0) n)
   | .list [.atom "msg"] => some .msg
   | _ => none
@@ -78,6 +80,14 @@ def urRun : List UStep → Unsafe.UR → List String → String
     | .ok _ =>
       match Unsafe.read t s with
       | .ok (v, s') => urRun rest s' (v.toSexp :: acc)
+      | o => s!"{o.cls} after={acc.length}"
+    | _ => s!"refused after={acc.length}"
+  | .skip t :: rest, s, acc =>
+    -- contract as for `read`; the unchecked reader's iterative skipper moves the index only and returns the length
+    match Pilota.Thrift.Skip.skip .be 64 t s.rest with
+    | .ok _ =>
+      match Pilota.Thrift.Skip.iterSkip t s.rest with
+      | .ok (n, _) => urRun rest { s with idx := s.idx + n } (s!"(skipped {n})" :: acc)
       | o => s!"{o.cls} after={acc.length}"
     | _ => s!"refused after={acc.length}"
   | .get p n :: rest, s, acc =>
